@@ -706,8 +706,12 @@ func (s *Netceptor) RemoveLocalServiceAdvertisement(service string) error {
 	s.serviceAdsLock.Lock()
 	defer s.serviceAdsLock.Unlock()
 	n, ok := s.serviceAdsReceived[s.nodeID]
-	connType := n[service].ConnType
+	var connType byte
 	if ok {
+		// the service may already have been withdrawn (Close called twice)
+		if ad, adOK := n[service]; adOK && ad != nil {
+			connType = ad.ConnType
+		}
 		delete(n, service)
 	}
 	sa := &serviceAdvertisementFull{
